@@ -136,3 +136,115 @@ def extract_toggle_vocab():
     changed = write_if_changed(os.path.join(GEN, "ToggleVocab.lean"), content)
     return True, "toggle vocabulary: %d truthy, %d falsy words extracted%s" % (
         len(tables[True]), len(tables[False]), " (file rewritten)" if changed else ""), tables[True], tables[False]
+
+
+def _ast_of_header(header, cls):
+    import tempfile
+    tu = os.path.join(core.BUILD, "extract")
+    os.makedirs(tu, exist_ok=True)
+    path = os.path.join(tu, cls + "_tu.cpp")
+    with open(path, "w") as f:
+        f.write("#include <nitro/log/severity.hpp>\n#include <%s>\n" % header)
+    p = subprocess.run(["clang++-14", "-std=c++17", "-fsyntax-only", "-I" + os.path.join(core.REPO, "include"),
+                        "-Xclang", "-ast-dump=json", "-Xclang", "-ast-dump-filter=" + cls, path],
+                       stdout=subprocess.PIPE, stderr=subprocess.PIPE)
+    txt = p.stdout.decode("utf-8", "replace")
+    dec = json.JSONDecoder()
+    i, objs = 0, []
+    while i < len(txt):
+        while i < len(txt) and txt[i].isspace():
+            i += 1
+        if i >= len(txt):
+            break
+        o, i = dec.raw_decode(txt, i)
+        objs.append(o)
+    return objs
+
+
+def _sink_program(header, cls, stream_name):
+    """returns (program, mutex_static) for class cls's sink() body, or raises ValueError"""
+    objs = _ast_of_header(header, cls)
+    recs = [o for o in objs if o.get("kind") == "CXXRecordDecl" and o.get("name") == cls and o.get("inner")]
+    if len(recs) != 1:
+        raise ValueError("class %s not found" % cls)
+    methods = {m.get("name"): m for m in recs[0]["inner"] if m.get("kind") == "CXXMethodDecl"}
+    if "sink" not in methods:
+        raise ValueError("%s::sink not found" % cls)
+    body = [c for c in methods["sink"].get("inner", []) if c.get("kind") == "CompoundStmt"]
+    if not body:
+        raise ValueError("%s::sink has no body" % cls)
+    prog = []
+    mutex_static = True
+    param = [c.get("name") for c in methods["sink"].get("inner", []) if c.get("kind") == "ParmVarDecl"]
+    rec_name = param[-1] if param else "formatted_record"
+    for st in body[0].get("inner", []):
+        if st.get("kind") == "DeclStmt":
+            vds = [v for v in st.get("inner", []) if v.get("kind") == "VarDecl"]
+            for v in vds:
+                ty = v.get("type", {}).get("qualType", "")
+                if "lock_guard" in ty or "unique_lock" in ty or "scoped_lock" in ty:
+                    prog.append("lock")
+                    # which mutex? a member function returning a function-local static, or a static member
+                    callee = []
+                    walk(v, lambda n: callee.append((n.get("referencedMemberDecl"), n.get("name")))
+                         if n.get("kind") == "MemberExpr" else None)
+                    refs = []
+                    walk(v, lambda n: refs.append(n.get("referencedDecl") or {}) if n.get("kind") == "DeclRefExpr" else None)
+                    found_static = False
+                    for _, nm in callee:
+                        m = methods.get(nm)
+                        if m is not None:
+                            vars_ = []
+                            walk(m, lambda n: vars_.append(n) if n.get("kind") == "VarDecl" else None)
+                            if any(x.get("storageClass") == "static" and "mutex" in x.get("type", {}).get("qualType", "")
+                                   for x in vars_):
+                                found_static = True
+                    # a static data member / namespace-scope mutex referenced directly
+                    for r in refs:
+                        if "mutex" in (r.get("type", {}) or {}).get("qualType", "") and r.get("kind") == "VarDecl":
+                            found_static = True
+                    if not found_static:
+                        mutex_static = False
+            continue
+        # an expression statement: operands in source order
+        ops = []
+        walk(st, lambda n: ops.append(((n.get("range", {}).get("begin", {}) or {}).get("offset", 0),
+                                       (n.get("referencedDecl") or {}).get("name")))
+             if n.get("kind") == "DeclRefExpr" else None)
+        names = [nm for _, nm in sorted(ops, key=lambda x: x[0])]
+        if stream_name not in names and rec_name not in names and "flush" not in names:
+            continue
+        for nm in names:
+            if nm == rec_name:
+                prog.append("write")
+            elif nm in ("flush", "endl"):
+                prog.append("flush")
+    return prog, mutex_static
+
+
+def extract_mt_sinks():
+    """Generated/MtSinks.lean from the sink bodies.  Returns (ok, note)."""
+    try:
+        so, sm = _sink_program("nitro/log/sink/stdout_mt.hpp", "stdout_mt", "cout")
+        se, em = _sink_program("nitro/log/sink/stderr_mt.hpp", "StdErrThreaded", "cerr")
+        ok = True
+        note = "mt sinks: stdout_mt = %s (static mutex %s), StdErrThreaded = %s (static mutex %s)" % (so, sm, se, em)
+    except (ValueError, KeyError, IndexError, json.JSONDecodeError) as e:
+        so, se, sm, em, ok = [], [], False, False, False
+        note = "mt sinks: extractor no longer recognises the code: " + str(e)
+
+    def lst(p):
+        return "[" + ", ".join("." + x for x in p) + "]"
+    content = ("-- written by vlib/extract.py from include/nitro/log/sink/{stdout_mt,stderr_mt}.hpp on every run\n"
+               "import NitroVerif.Model.MT\n"
+               "namespace NitroVerif.Generated\n"
+               "open NitroVerif.MT\n"
+               "def stdoutSink : List Instr := %s\n"
+               "def stderrSink : List Instr := %s\n"
+               "def stdoutMutexStatic : Bool := %s\n"
+               "def stderrMutexStatic : Bool := %s\n"
+               "def mtExtracted : Bool := %s\n"
+               "end NitroVerif.Generated\n") % (lst(so), lst(se), "true" if sm else "false", "true" if em else "false",
+                                                 "true" if ok else "false")
+    changed = write_if_changed(os.path.join(GEN, "MtSinks.lean"), content)
+    return ok, note + (" (file rewritten)" if changed else "")
